@@ -94,7 +94,7 @@ class Gen:
         return self.rng.choice({1: ["streamid=0", "streamid=1"], 2: ["streamid=0"], 3: ["streamid=1"],
                                 5: ["streamid=0", "streamid=1"], 6: ["streamid=1"], 8: ["trk"]}.get(sdp, ["streamid=0"]))
 
-    def one(self, i, meth, flow_path, want_record, sdp, p_ok):
+    def one(self, i, meth, flow_path, want_record, sdp, p_ok, contrary=False):
         """one request; with probability p_ok every parameter is the one the flow needs"""
         r = self.rng
         cs = self.cseq(i)
@@ -105,6 +105,12 @@ class Gen:
             return req(ANNOUNCE, cs, flow_path if ok() else self.path(False),
                        ctype=ok() or r.random() < 0.5, sdp=sdp if ok() else r.choice([1, 2, 3, 5, 6, 8, 7, 4, 0]))
         if meth == SETUP:
+            if contrary:
+                # a SETUP that is refused (or changes the transport) after the session is ready
+                t = r.choice([T_UDP_REC, T_MC + ";mode=record", T_TCP, T_MC, "RTP/AVP;unicast;client_port=x;mode=record",
+                              "RTP/AVP/UDP;unicast;client_port=50000-50001;mode=record", T_TCP_REC, T_MC2,
+                              "RTP/AVP;unicast;client_port=q"])
+                return req(SETUP, cs, flow_path, ctl=self.good_ctl(sdp), transport=t)
             if ok():
                 t = r.choice([T_TCP_REC, T_TCP_REC, T_TCP_REC2] if want_record else [T_TCP, T_TCP2, T_UDP, T_MC, T_TCP, T_UDP])
             else:
@@ -131,7 +137,8 @@ class Gen:
                 sdp = e[1]
         wspath = (flow_path if r.random() < 0.7 else r.choice([LIVE_A, LIVE_N, "/live/none", "/LIVE/a"])) if ws else ""
         flow = ([ANNOUNCE, SETUP, SETUP, RECORD, RECORD] if want_record else [DESCRIBE, SETUP, SETUP, PLAY, PLAY])
-        if r.random() < 0.5:
+        contrary_at = 2 if r.random() < 0.3 else -1
+        if contrary_at < 0 and r.random() < 0.5:
             del flow[2]
         if r.random() < 0.6:
             del flow[-1]
@@ -139,8 +146,10 @@ class Gen:
         fi = 0
         for i in range(n):
             k = r.random()
+            contrary = False
             if style < 0.8 and k < 0.75 and fi < len(flow):
                 m = flow[fi]
+                contrary = fi == contrary_at
                 fi += 1
             elif k < 0.94:
                 m = r.choice([OPTIONS, DESCRIBE, ANNOUNCE, SETUP, SETUP, PLAY, PLAY, RECORD, RECORD, PAUSE,
@@ -149,12 +158,12 @@ class Gen:
                 m = TEARDOWN
             if 0.8 <= style < 0.9 and r.random() < 0.3:
                 want_record = not want_record   # mixed flows: describe then announce etc.
-            reqs.append(self.one(i, m, flow_path, want_record, sdp, p_ok))
+            reqs.append(self.one(i, m, flow_path, want_record, sdp, p_ok, contrary))
         return [ws, wspath, env, WATCH, reqs]
 
 
-def exhaustive(depth):
-    """every sequence of length <= depth over a reduced alphabet, two environments, tcp"""
+def exhaustive(depth, core=False, mcast=False):
+    """every sequence of length <= depth over a reduced alphabet, tcp"""
     alpha = [
         req(OPTIONS, 1, LIVE_A),
         req(DESCRIBE, 1, LIVE_A),
@@ -162,13 +171,17 @@ def exhaustive(depth):
         req(SETUP, 1, LIVE_A, ctl="streamid=0", transport=T_TCP),
         req(SETUP, 1, LIVE_A, ctl="streamid=1", transport=T_MC),
         req(SETUP, 1, REC_X, ctl="streamid=0", transport=T_TCP_REC),
+        req(SETUP, 1, REC_X, ctl="streamid=0", transport=T_UDP_REC),
         req(SETUP, 1, LIVE_A, ctl="streamid=0", transport="RTP/AVP/TCP;unicast;interleaved=x"),
         req(PLAY, 1, LIVE_A),
         req(RECORD, 1, REC_X),
         req(PAUSE, 1, LIVE_A),
         req(TEARDOWN, 1, LIVE_A),
     ]
-    envs = [[[LIVE_A, 1, False]]]
+    if core:   # the 8 letters that move the automaton
+        alpha = [a for a in alpha if a[0] in (DESCRIBE, ANNOUNCE, PLAY, RECORD, TEARDOWN)
+                 or (a[0] == SETUP and a[4] in (T_TCP, T_MC, T_TCP_REC))]
+    envs = [[[LIVE_A, 1, mcast]]]
     out = []
     for e in envs:
         for L in range(1, depth + 1):
@@ -237,23 +250,24 @@ def run(ck):
               nontrivial=lambda c: ";" in c[2], sig=lambda c, e, o: "parse-transport", sample=2)
 
     # 2. request sequences through real sessions
-    n = 4000 if ck.thorough else 500
-    cases = [g.case(12) for _ in range(n)]
+    n = 15000 if ck.thorough else 500
+    cases = [g.case(16 if ck.thorough else 12) for _ in range(n)]
     ck.stream("sessions", cases, "C12_run", "C12", "C12_ok", nontrivial=nontrivial, sig=sig, project=project,
               timeout=1500)
 
     # 3. exhaustive over a reduced alphabet
     ex = exhaustive(4 if ck.thorough else 3)
+    if ck.thorough:
+        ex += exhaustive(4, mcast=True) + exhaustive(5, core=True)
     ck.stream("exhaustive", ex, "C12_run", "C12", "C12_ok", nontrivial=nontrivial, sig=sig, project=project,
               timeout=2400, sample=1)
 
-    media_seen = 0
     return ck.finish(
-        rule="(a) random request sequences of length 1..12 biased along the DESCRIBE/SETUP/PLAY and ANNOUNCE/SETUP/RECORD "
+        rule="(a) random request sequences of length 1..12 (thorough 1..16) biased along the DESCRIBE/SETUP/PLAY and ANNOUNCE/SETUP/RECORD "
              "flows with deviations at every position (all methods of the alphabet incl. PAUSE/GET_PARAMETER/unknown, valid and "
              "malformed Transport headers: tcp/udp/multicast x play/record, existing/missing/non-multicastable paths, 9 SDP "
              "bodies incl. unparsable ones), 25% as ws-rtsp, against 0-4 pre-published streams (published by real RECORD "
-             "sessions or media.Regist); (b) every sequence of length <= 3 (thorough: 4) over an 11-letter alphabet; "
+             "sessions or media.Regist); (b) every sequence of length <= 3 (thorough: 4) over a 12-letter alphabet; "
              "(c) the model's ParseTransport and SDP table against the real functions. non-trivial = >=3 requests with a SETUP and a PLAY or RECORD",
         trusted=["the SDP parser and url.Parse are oracles: the model's SDP table (9 texts) is compared with parseSdp+getControlPath every run",
                  "net/url round trip of generated request URIs (checked by the harness per request)",
